@@ -1,5 +1,6 @@
 import Rare.Proofs.C10
 import Rare.Proofs.C10Tree
+import Rare.Proofs.C10State
 /-!
 # C10 — optimisation and user-defined functions never change an expression's value
 
@@ -159,6 +160,125 @@ theorem loader_split (name expr : Bytes) (hn : 32 ∉ name) :
     have hb : b ≠ 32 := fun e => hn (by simp [e])
     have hr : 32 ∉ r := fun e => hn (by simp [e])
     simp [splitName, hb, ih hr]
+
+/-! ## Hidden state (round 4): the date-layout cache of `{time}` / `{buckettime}`, pooled context objects
+
+`Model/C10State.lean` lists every closure of the expression packages that keeps something between calls.  The only
+state an evaluation changes observably is the layout cache of the `cache` date stage; a stage is then a
+state-passing interaction tree (`SStage`, told whether it serves a static analysis), its life a list of events
+(`Ev`): evaluations on real matches and static-analysis evaluations (`EvalStaticStage`: the optimiser's and those of
+enclosing builders). -/
+
+/-- **Static analysis leaves no trace the input can see.**  For every date library (`detect` =
+    `dateparse.ParseFormat`, `parse` = `time.ParseInLocation` + formatting), every stateless date expression, every
+    cache content and every history: the answers on the real matches are those of the history with every
+    static-analysis evaluation removed – however many there are and wherever they occur. -/
+theorem time_cache_probe_invisible {L : Type} (lib : TimeLib L) (date : Stage) (st : TimeSt L) (evs : List Ev) :
+    runEvents (timeCache lib date) st evs = runEvents (timeCache lib date) st (evs.filter Ev.isReal) :=
+  time_probe_invisible lib date evs st
+
+/-- **`optimize_sound` for the stateful date stage.**  What the optimiser makes of the stage (a literal if its
+    probe made no look-up, the stage otherwise; the probe runs on the fresh cache) answers every history – real
+    matches and further static analyses in any order – exactly like the unoptimised stage from the fresh cache. -/
+theorem time_cache_optimize_sound {L : Type} (lib : TimeLib L) (date : Stage) (evs : List Ev) :
+    runEvents (optimizeS (timeCache lib date) TimeSt.fresh) ((timeCache lib date).probeStep TimeSt.fresh).2 evs
+      = runEvents (timeCache lib date) TimeSt.fresh evs :=
+  time_optimize_events lib date evs
+
+/-- …in particular on every list of matches (`--no-optimize` = the right-hand side). -/
+theorem time_cache_optimize_sound_real {L : Type} (lib : TimeLib L) (date : Stage) (h : List Ctx) :
+    runReal (optimizeS (timeCache lib date) TimeSt.fresh) ((timeCache lib date).probeStep TimeSt.fresh).2 h
+      = runReal (timeCache lib date) TimeSt.fresh h :=
+  time_optimize_events lib date _
+
+/-- **The same through sub-contexts.**  A `cache` stage `{time {0}}` evaluated by a binder on every element of an
+    array (`{@map <arr> "{time {0}}"}`) or by a funcs-file function on its argument (`ts {time {0}}`,
+    `{ts "2020-01-{0}"}`), the values being ANY stages of the caller's context – constant, dynamic or mixed: static
+    analysis of the enclosing stage is invisible in every history (sub-contexts pass `InStaticAnalysis` on). -/
+theorem time_cache_subcontext_probe_invisible {L : Type} (lib : TimeLib L) (elems : List Stage) (st : TimeSt L)
+    (evs : List Ev) :
+    runEvents (timeMapStage .cur lib elems) st evs = runEvents (timeMapStage .cur lib elems) st (evs.filter Ev.isReal) :=
+  timeMap_probe_invisible lib elems evs st
+
+/-- **Why b6010cd was needed (histories that differ, upstream code).**  With every detected layout remembered, the
+    optimiser's probe of `{time "ab{0}"}` caches the layout of `"ab"`; the first real line then fails to parse
+    while the unoptimised stage parses it (toy library: the layout of a date is its length). -/
+theorem time_cache_v0_counterexample :
+    runReal (optimizeS (timeCacheRev .v0 toyLib toyDate) TimeSt.fresh)
+        ((timeCacheRev .v0 toyLib toyDate).probeStep TimeSt.fresh).2 [toyCtx [99]] = [.ok ErrorParsing] ∧
+      runReal (timeCacheRev .v0 toyLib toyDate) TimeSt.fresh [toyCtx [99]] = [.ok [97, 98, 99]] := by
+  constructor <;>
+  simp [runReal, runEvents, SComp.step, SComp.probeStep, optimizeS, timeCacheRev, toyDate, Comp.bind, Comp.run,
+    Comp.probe, Comp.probeN, toyCtx, timeStep, toyLib, TimeLib.parseOr, emptyOf, TimeSt.fresh]
+
+/-- **Why cb6fa4b was needed (b6010cd's own defect).**  Answering `<PARSE-ERROR>` for the static-analysis value
+    made every CONSTANT date an error although the library detects and parses it; the present code parses it. -/
+theorem time_cache_v1_counterexample :
+    runReal (timeCacheRev .v1 toyLib (.ret [97, 98])) TimeSt.fresh [toyCtx [99]] = [.ok ErrorParsing] ∧
+      toyLib.detect [97, 98] = some 2 ∧ toyLib.parse 2 [97, 98] = some [97, 98] ∧
+      runReal (timeCache toyLib (.ret [97, 98])) TimeSt.fresh [toyCtx [99]] = [.ok [97, 98]] := by
+  refine ⟨?_, rfl, rfl, ?_⟩ <;>
+  simp [runReal, runEvents, SComp.step, timeCache, timeCacheRev, Comp.bind, Comp.run, Comp.probe, Comp.probeN, toyCtx,
+    timeStep, toyLib, TimeLib.parseOr, emptyOf, TimeSt.fresh]
+
+/-- **Why 3acd3a0 was needed (cb6fa4b's code, `{ts "2020-01-{0}"}` / `{@map {@ {0} 2020-01-01} "{time {0}}"}`).**
+    Through a sub-context the probe's value is not the date expression's own static-analysis value: with one cell
+    for both worlds the probe of `[{0}, "99"]` caches the constant's layout; the first real line's first element
+    then fails to parse, while without optimisation it decides the layout and the constant fails.  With the cell
+    of its own (the code as it is) both answer the same. -/
+theorem time_cache_v2_counterexample :
+    runReal (optimizeS (timeMapStage .v2 toyLib [Comp.match_ 0, Stage.lit [57, 57]]) TimeSt.fresh)
+        ((timeMapStage .v2 toyLib [Comp.match_ 0, Stage.lit [57, 57]]).probeStep TimeSt.fresh).2 [toyCtx [55]]
+      = [.ok (ErrorParsing ++ [57, 57])] ∧
+    runReal (timeMapStage .v2 toyLib [Comp.match_ 0, Stage.lit [57, 57]]) TimeSt.fresh [toyCtx [55]]
+      = [.ok (55 :: ErrorParsing)] ∧
+    runReal (optimizeS (timeMapStage .cur toyLib [Comp.match_ 0, Stage.lit [57, 57]]) TimeSt.fresh)
+        ((timeMapStage .cur toyLib [Comp.match_ 0, Stage.lit [57, 57]]).probeStep TimeSt.fresh).2 [toyCtx [55]]
+      = [.ok (55 :: ErrorParsing)] := by
+  refine ⟨?_, ?_, ?_⟩ <;>
+  simp [runReal, runEvents, SComp.step, SComp.probeStep, optimizeS, timeMapStage, timeOnElems, Comp.match_, Comp.bind,
+    Comp.run, Comp.probe, Comp.probeN, toyCtx, timeStep, toyLib, TimeLib.parseOr, Stage.lit, TimeSt.fresh]
+
+/-- **Why 6998c9c was needed (folding a constant array).**  A static analysis that remembers nothing parses every
+    constant by its own layout; on input the first one decides.  With the two cells the folded value of
+    `["99", "7"]` is what the first evaluation on input computes. -/
+theorem time_cache_fold_const_array :
+    ((timeMapStage .cur toyLib [Stage.lit [57, 57], Stage.lit [55]]).probeStep TimeSt.fresh).1
+      = .ok ([57, 57] ++ ErrorParsing, true) ∧
+    runReal (timeMapStage .cur toyLib [Stage.lit [57, 57], Stage.lit [55]]) TimeSt.fresh [toyCtx [1], toyCtx [2]]
+      = [.ok ([57, 57] ++ ErrorParsing), .ok ([57, 57] ++ ErrorParsing)] := by
+  constructor <;>
+  simp [runReal, runEvents, SComp.step, SComp.probeStep, timeMapStage, timeOnElems, Comp.bind,
+    Comp.run, Comp.probe, Comp.probeN, toyCtx, timeStep, toyLib, TimeLib.parseOr, Stage.lit, TimeSt.fresh]
+
+/-- **Pooled sub-contexts: stale content is never observed.**  Whatever objects lie in `subContextPool` (left by
+    earlier evaluations of ANY expression – the pool is global), one sub-evaluation of a binder
+    (`Get; *sub = subContext{parent: context}; sub.Eval(stage, a, b); Return`) answers what the stateless model
+    (`Comp.withSub`) says, and hands exactly one object back. -/
+theorem pool_stale_independent (pool : Pool) (ctx : Ctx) (inner : Stage) (a b : Bytes) :
+    (evalSubPooled true pool ctx inner a b).1 = (inner.withSub a b).run ctx ∧
+      (evalSubPooled true pool ctx inner a b).2.length = max pool.length 1 := by
+  constructor
+  · rw [withSub_run']; simp [evalSubPooled]
+  · simp only [evalSubPooled, Pool.get, Pool.ret]
+    cases h : pool.reverse with
+    | nil => simp [List.reverse_eq_nil_iff.mp h]
+    | cons o r =>
+      have : pool.length = r.length + 1 := by
+        have := congrArg List.length h; simpa using this
+      simp [this]
+
+/-- …and the reset line is what makes it so: without `*sub = subContext{parent: context}` (as `@for` once was,
+    DESIGN.md F7) the answer depends on what the previous user of the object left in it. -/
+theorem pool_no_reset_counterexample :
+    (evalSubPooled false [⟨toyCtx [1], [], []⟩] (toyCtx [2]) (Comp.match_ (-1)) [] []).1 = .ok [1] ∧
+      (evalSubPooled false [] (toyCtx [2]) (Comp.match_ (-1)) [] []).1 = .ok [] ∧
+      (evalSubPooled true [⟨toyCtx [1], [], []⟩] (toyCtx [2]) (Comp.match_ (-1)) [] []).1 = .ok [2] := ⟨rfl, rfl, rfl⟩
+
+/-- **Pooled call-site contexts of funcs-file functions.**  Whatever `sub` the pooled `lazySubContext` still holds
+    from an earlier call, the call answers `withArgs args body` in the caller's context (`call_eq_body`). -/
+theorem userfn_pool_stale_independent (stale : LazyObj) (args : List Stage) (body : Stage) (ctx : Ctx) :
+    (evalArgsPooled stale args body ctx).1 = (withArgs args body).run ctx := rfl
 
 /-- Non-vacuity: a definitions file with a comment, a continuation with an interleaved comment, and
     a blank line yields the two expected phrases. -/
